@@ -232,8 +232,11 @@ def c08_scripts(tier):
 
 
 def c08_task(arg):
-    name, lines, expect, ntargets = arg
+    name, lines, expect, ntargets = arg[:4]
+    listener = arg[4] if len(arg) > 4 else None
     s = sc.Scratch("c08e2e")
+    lis = None
+    case = {"cli_c08": [name, ntargets] + ([listener] if listener else [])}
     try:
         ts = [{"path": "t%d" % i} for i in range(ntargets)]
         r = sc.Repo(s, "r", ts, commands={t["path"]: {"build": "x"} for t in ts}, init_git=False)
@@ -251,11 +254,37 @@ def c08_task(arg):
             r.set_script(t["path"], "build", [err_lines[0]] + merged + ["exit 0"])
             want[("stdout.zst", t["path"])] = tag + b"\n" + expect
             want[("stderr.zst", t["path"])] = tag + b"\n" + expect
+        if listener:
+            # a `log tail` listener whose filters select (some of) the streams is attached for the whole
+            # run: what is stored must still be exactly what was written
+            import socket, subprocess, time
+            lf = open(os.path.join(s.dir, "tail.out"), "wb")
+            lis = subprocess.Popen([common.MONORAIL, "log", "tail"] + listener, cwd=r.dir, env=s.env(), stdout=lf,
+                                   stderr=subprocess.STDOUT, start_new_session=True)
+            s.popens.append(lis)
+            lf.close()
+            deadline = time.time() + 10
+            while True:
+                k = socket.socket()
+                try:
+                    k.bind(("127.0.0.1", r.log_port))
+                    bound = False
+                except OSError:
+                    bound = True
+                finally:
+                    k.close()
+                if bound:
+                    break
+                if lis.poll() is not None or time.time() > deadline:
+                    return {"engine_error": "log tail did not start for the C08 slice"}
+                time.sleep(0.02)
         res = r.mr("run", "-c", "build", env=r.trace_env(), timeout=120)
         doc = res.json()
         v = []
+        if lis is not None and lis.poll() is not None:
+            return {"engine_error": "log tail exited during the C08 slice run (%s)" % lis.returncode}
         if res.code != 0 or doc is None:
-            return {"judged": 1, "v": [("e2e-run-failed", "script %s: exit %s %s" % (name, res.code, res.err[:200]), {"cli_c08": [name, ntargets]})]}
+            return {"judged": 1, "v": [("e2e-run-failed", "script %s: exit %s %s" % (name, res.code, res.err[:200]), case)]}
         for (f, t), w in want.items():
             p = os.path.join(doc["out"]["run"]["path"], "build", doc["out"]["run"]["targets"][t], f)
             try:
@@ -272,7 +301,9 @@ def c08_task(arg):
         if expect.endswith(b"\n") or not expect:
             if ls.code != 0 or blocks != exp_blocks:
                 v.append(("e2e-log-show-differs", "script %s: log show blocks %s, expected %s" % (name, [(b[0], b[1], len(b[3])) for b in blocks], [(b[0], b[1], len(b[3])) for b in exp_blocks])))
-        return {"judged": 1, "v": [(sig, d, {"cli_c08": [name, ntargets]}) for sig, d in v]}
+        if listener:
+            v = [(sig, d + " [log tail %s attached]" % " ".join(listener)) for sig, d in v]
+        return {"judged": 1, "v": [(sig, d, case) for sig, d in v]}
     except common.EngineError as e:
         return {"engine_error": str(e)}
     except Exception:
@@ -378,6 +409,9 @@ def run_slice(prop, tier):
     elif prop == "C08":
         scripts = c08_scripts(tier)
         tasks = [(n, l, e, k) for (n, l, e) in scripts for k in ((1, 3) if tier == "quick" else (1, 2, 3, 5))]
+        # the same scripts with a `log tail` listener attached (all streams; thorough: also partial filters)
+        lis = [["--stdout", "--stderr"]] if tier == "quick" else [["--stdout", "--stderr"], ["--stdout"], ["--stderr", "-t", "t0"], ["--stdout", "--stderr", "-c", "build"]]
+        tasks += [(n, l, e, k, f) for (n, l, e) in scripts for k in ((2,) if tier == "quick" else (1, 3)) for f in lis]
         res = common.pmap(c08_task, tasks)
         res += common.pmap(c08_repeat_task, [(how, k) for how in ("-c twice", "sequence twice", "sequence mix") for k in (1, 3)])
         res += common.pmap(c08_show_filters_task, [0])
@@ -415,9 +449,9 @@ def replay_case(prop, case):
     elif "cli_c18" in case:
         r = c18_task(case["cli_c18"])
     else:
-        name, k = case["cli_c08"]
-        sc_ = [x for x in c08_scripts("quick") if x[0] == name][0]
-        r = c08_task((sc_[0], sc_[1], sc_[2], k))
+        name, k = case["cli_c08"][:2]
+        sc_ = ([x for x in c08_scripts("quick") if x[0] == name] or [x for x in c08_scripts("thorough") if x[0] == name])[0]
+        r = c08_task((sc_[0], sc_[1], sc_[2], k) + tuple(case["cli_c08"][2:3]))
     if "engine_error" in r:
         raise common.EngineError(r["engine_error"])
     return [{"sig": "cli:" + s, "detail": d} for s, d, _ in r["v"]]
